@@ -76,214 +76,275 @@ theorem NoDataAfterClose_append : ∀ (a b : List Ev), NoDataAfterClose a → No
     intro hce
     exact NoData_append (h1 hce) (hc ⟨e, List.mem_cons_self .., hce⟩)
 
-/-- `sendClose` emits exactly one close-frame send and leaves the session `Closed` -/
-theorem sendClose_spec (s : Sess) (c : Nat) (r : Bytes) :
-    NoData (sendClose s c r).2 ∧ Closed (sendClose s c r).1 ∧ (sendClose s c r).1.alive = s.alive := by
-  refine ⟨?_, ?_, rfl⟩
-  · intro e he
-    simp only [sendClose, List.mem_singleton] at he
-    subst he
-    simp [isDataSend]
-  · unfold Closed sendClose
-    cases h : s.alive <;> simp [h]
-
-theorem sendClose_closed_mono (s : Sess) (c : Nat) (r : Bytes) (h : Closed s) : Closed (sendClose s c r).1 :=
-  (sendClose_spec s c r).2.1
-
-end Iora.Ws
-
-namespace Iora.Ws
-open Iora
-
-theorem NoData_iff (evs : List Ev) : NoData evs ↔ evs.all (fun e => !isDataSend e) = true := by
-  simp [NoData]
-
-theorem handleDataFrame_noData (max : Nat) (s : Sess) (f : Frame) : NoData (handleDataFrame max s f).2 := by
-  rw [NoData_iff]
-  unfold handleDataFrame sendClose
-  simp only
-  repeat' split
-  all_goals simp [isDataSend]
-
-theorem handleFrame_noData (max : Nat) (s : Sess) (f : Frame) : NoData (handleFrame max s f).2 := by
-  unfold handleFrame
-  split
-  · exact handleDataFrame_noData max s f
-  · rw [NoData_iff]
-    unfold sendClose
-    simp only
-    repeat' split
-    all_goals simp [isDataSend]
-
-end Iora.Ws
-
-namespace Iora.Ws
-open Iora
 
 def closedB (s : Sess) : Bool := s.closeSent || !s.alive
 theorem closed_iff (s : Sess) : Closed s ↔ closedB s = true := by
   unfold Closed closedB; cases s.closeSent <;> cases s.alive <;> simp
 
-theorem handleDataFrame_closed (max : Nat) (s : Sess) (f : Frame) (h : closedB s = true) :
-    closedB (handleDataFrame max s f).1 = true := by
-  unfold handleDataFrame sendClose
-  unfold closedB at *
-  simp only
-  repeat' split
-  all_goals simp_all
+theorem NoData_iff (evs : List Ev) : NoData evs ↔ evs.all (fun e => !isDataSend e) = true := by
+  simp [NoData]
 
-theorem handleDataFrame_close (max : Nat) (s : Sess) (f : Frame)
-    (h : (handleDataFrame max s f).2.any isCloseSend = true) : closedB (handleDataFrame max s f).1 = true := by
-  unfold handleDataFrame sendClose at *
-  unfold closedB
-  simp only at *
-  repeat' split
-  all_goals (repeat' split at h)
-  all_goals simp_all [isCloseSend]
+/-! ### sends touch nothing but `closeSent` -/
 
-theorem handleFrame_closed (max : Nat) (s : Sess) (f : Frame) (h : closedB s = true) :
-    closedB (handleFrame max s f).1 = true := by
-  unfold handleFrame
+@[simp] theorem sendClose_alive (s : Sess) (c : Nat) (r : Bytes) : (sendClose s c r).1.alive = s.alive := rfl
+@[simp] theorem sendClose_buffer (s : Sess) (c : Nat) (r : Bytes) : (sendClose s c r).1.buffer = s.buffer := rfl
+@[simp] theorem sendClose_fragBuf (s : Sess) (c : Nat) (r : Bytes) : (sendClose s c r).1.fragBuf = s.fragBuf := rfl
+@[simp] theorem sendClose_fragOp (s : Sess) (c : Nat) (r : Bytes) : (sendClose s c r).1.fragOp = s.fragOp := rfl
+@[simp] theorem appSend_state (s : Sess) (op : Nat) (pl : Bytes) : (appSend s op pl).1 = s := by
+  unfold appSend; split <;> rfl
+@[simp] theorem sendPing_state (s : Sess) (pl : Bytes) : (sendPing s pl).1 = s := by
+  unfold sendPing; split <;> simp
+
+/-- the fields a send can not change -/
+def SameBut (s s' : Sess) : Prop :=
+  s'.alive = s.alive ∧ s'.buffer = s.buffer ∧ s'.fragBuf = s.fragBuf ∧ s'.fragOp = s.fragOp
+
+theorem SameBut.rfl' (s : Sess) : SameBut s s := ⟨rfl, rfl, rfl, rfl⟩
+theorem SameBut.trans {a b c : Sess} (h1 : SameBut a b) (h2 : SameBut b c) : SameBut a c :=
+  ⟨h2.1.trans h1.1, h2.2.1.trans h1.2.1, h2.2.2.1.trans h1.2.2.1, h2.2.2.2.trans h1.2.2.2⟩
+
+theorem sendStep_same (s : Sess) (a : Send) : SameBut s (sendStep s a).1 := by
+  cases a <;> simp [sendStep, SameBut]
+
+theorem runSends_same : ∀ (as : List Send) (s : Sess), SameBut s (runSends s as).1 := by
+  intro as
+  induction as with
+  | nil => intro s; exact SameBut.rfl' s
+  | cons a as ih => intro s; simp only [runSends]; exact (sendStep_same s a).trans (ih _)
+
+theorem fire_same (s : Sess) (e : Ev) (sc : List Send) : SameBut s (fire s e sc).1 := by
+  simp only [fire]; exact runSends_same sc s
+
+theorem deliver_same (cb : Cbs) (s : Sess) (op : Nat) (pl : Bytes) : SameBut s (deliver cb s op pl).1 := by
+  unfold deliver
   split
-  · exact handleDataFrame_closed max s f h
-  · unfold sendClose erase
-    unfold closedB at *
-    simp only
-    repeat' split
-    all_goals simp_all
+  · split
+    · simp [SameBut]
+    · exact fire_same ..
+  · split
+    · exact fire_same ..
+    · exact SameBut.rfl' s
 
-theorem handleFrame_close (max : Nat) (s : Sess) (f : Frame)
-    (h : (handleFrame max s f).2.any isCloseSend = true) : closedB (handleFrame max s f).1 = true := by
-  unfold handleFrame at *
+@[simp] theorem failSession_state (cb : Cbs) (s : Sess) (c : Nat) (r : Bytes) :
+    (failSession cb s c r).1 = { alive := false } := rfl
+
+/-! ### the close discipline, compositionally -/
+
+/-- a piece of behaviour `s --ev--> s'` that respects the close discipline: once closed no data frame is sent, closed
+stays closed, a close-frame send leaves the session closed, and inside `ev` nothing follows a close frame -/
+structure Tr (s : Sess) (ev : List Ev) (s' : Sess) : Prop where
+  nodata : closedB s = true → NoData ev
+  mono : closedB s = true → closedB s' = true
+  close : ev.any isCloseSend = true → closedB s' = true
+  ndac : NoDataAfterClose ev
+
+theorem Tr.comp {s s1 s2 : Sess} {e1 e2 : List Ev} (h1 : Tr s e1 s1) (h2 : Tr s1 e2 s2) : Tr s (e1 ++ e2) s2 where
+  nodata h := NoData_append (h1.nodata h) (h2.nodata (h1.mono h))
+  mono h := h2.mono (h1.mono h)
+  close h := by
+    simp only [List.any_append, Bool.or_eq_true] at h
+    rcases h with h | h
+    · exact h2.mono (h1.close h)
+    · exact h2.close h
+  ndac := by
+    apply NoDataAfterClose_append _ _ h1.ndac h2.ndac
+    intro ⟨e, he, hce⟩
+    exact h2.nodata (h1.close (List.any_eq_true.mpr ⟨e, he, hce⟩))
+
+theorem Tr.state {s s' : Sess} (h : closedB s = true → closedB s' = true) : Tr s [] s' where
+  nodata _ := NoData_nil
+  mono := h
+  close h := by simp at h
+  ndac := trivial
+
+theorem Tr.refl (s : Sess) : Tr s [] s := Tr.state id
+
+theorem Tr.dead (s s' : Sess) (h : closedB s' = true) : Tr s [] s' := Tr.state (fun _ => h)
+
+/-- an event that is not a frame send (a callback, `closeSession`, …) -/
+theorem Tr.ev (s : Sess) (e : Ev) (hd : isDataSend e = false) (hc : isCloseSend e = false) : Tr s [e] s where
+  nodata _ := NoData_cons hd NoData_nil
+  mono := id
+  close h := by simp [hc] at h
+  ndac := ⟨fun _ => NoData_nil, trivial⟩
+
+/-- a close-frame send that leaves the session closed -/
+theorem Tr.closeSend (s s' : Sess) (w : Bytes) (hw : wireOpcode w = some 8) (h : closedB s' = true) : Tr s [.sent w] s' where
+  nodata _ := NoData_cons (by simp [isDataSend, hw]) NoData_nil
+  mono _ := h
+  close _ := h
+  ndac := ⟨fun _ => NoData_nil, trivial⟩
+
+theorem Tr.sendClose (s : Sess) (c : Nat) (r : Bytes) : Tr s (sendClose s c r).2 (sendClose s c r).1 := by
+  apply Tr.closeSend _ _ _ (wireOpcode_makeClose c r)
+  unfold closedB Iora.Ws.sendClose
+  cases s.alive <;> simp
+
+theorem Tr.appSend (s : Sess) (op : Nat) (pl : Bytes) (h16 : op < 16) (h8 : op ≠ 8) :
+    Tr s (appSend s op pl).2 (appSend s op pl).1 := by
+  rw [appSend_state]
+  unfold Iora.Ws.appSend
   split
-  · rename_i hc; simp only [hc, ↓reduceIte] at h; exact handleDataFrame_close max s f h
+  · exact Tr.refl s
   · rename_i hc
-    simp only [hc] at h
-    unfold sendClose erase at *
-    unfold closedB
-    simp only at *
-    repeat' split
-    all_goals (repeat' split at h)
-    all_goals simp_all [isCloseSend]
+    refine ⟨?_, id, ?_, ⟨fun _ => NoData_nil, trivial⟩⟩
+    · intro h; unfold closedB at h; simp_all
+    · intro h
+      simp [isCloseSend, wireOpcode_mkFrame op true pl h16, h8] at h
 
-end Iora.Ws
+theorem Tr.sendStep (s : Sess) (a : Send) : Tr s (sendStep s a).2 (sendStep s a).1 := by
+  cases a with
+  | text bs => exact Tr.appSend s 1 bs (by omega) (by omega)
+  | binary bs => exact Tr.appSend s 2 bs (by omega) (by omega)
+  | ping bs =>
+    simp only [Iora.Ws.sendStep, sendPing]
+    split
+    · exact Tr.refl s
+    · exact Tr.appSend s 9 bs (by omega) (by omega)
+  | close c r => exact Tr.sendClose s c r
 
-namespace Iora.Ws
-open Iora
+theorem Tr.runSends : ∀ (as : List Send) (s : Sess), Tr s (runSends s as).2 (runSends s as).1 := by
+  intro as
+  induction as with
+  | nil => intro s; exact Tr.refl s
+  | cons a as ih => intro s; simp only [Iora.Ws.runSends]; exact (Tr.sendStep s a).comp (ih _)
 
-theorem any_append_close (a b : List Ev) : (a ++ b).any isCloseSend = (a.any isCloseSend || b.any isCloseSend) := by
-  simp [List.any_append]
+theorem Tr.fire (s : Sess) (e : Ev) (sc : List Send) (hd : isDataSend e = false) (hc : isCloseSend e = false) :
+    Tr s (fire s e sc).2 (fire s e sc).1 := by
+  simp only [Iora.Ws.fire]
+  exact (Tr.ev s e hd hc).comp (Tr.runSends sc s)
 
-theorem loop_spec (max : Nat) : ∀ (fuel : Nat) (s : Sess) (d : Bytes),
-    NoData (loop max fuel s d).2.1 ∧
-    (closedB s = true → closedB (loop max fuel s d).1 = true) ∧
-    ((loop max fuel s d).2.1.any isCloseSend = true → closedB (loop max fuel s d).1 = true) := by
+theorem Tr.deliver (cb : Cbs) (s : Sess) (op : Nat) (pl : Bytes) : Tr s (deliver cb s op pl).2 (deliver cb s op pl).1 := by
+  unfold Iora.Ws.deliver
+  split
+  · split
+    · exact Tr.sendClose ..
+    · exact Tr.fire _ _ _ rfl rfl
+  · split
+    · exact Tr.fire _ _ _ rfl rfl
+    · exact Tr.refl s
+
+/-- an event that is not a frame send, with a state change that keeps closed sessions closed -/
+theorem Tr.ev' (s s' : Sess) (e : Ev) (hd : isDataSend e = false) (hc : isCloseSend e = false)
+    (h : closedB s = true → closedB s' = true) : Tr s [e] s' := by
+  have := (Tr.ev s e hd hc).comp (Tr.state h)
+  simpa using this
+
+theorem Tr.failSession (cb : Cbs) (s : Sess) (c : Nat) (r : Bytes) :
+    Tr s (failSession cb s c r).2 (failSession cb s c r).1 := by
+  simp only [Iora.Ws.failSession]
+  exact ((Tr.sendClose s c r).comp (Tr.fire _ .onError cb.onError rfl rfl)).comp
+    (Tr.ev' _ _ .closeSession rfl rfl (fun _ => rfl))
+
+@[simp] theorem accumulate_alive (s : Sess) (f : Frame) : (accumulate s f).alive = s.alive := by
+  unfold accumulate; split
+  · rfl
+  · split <;> rfl
+@[simp] theorem accumulate_closeSent (s : Sess) (f : Frame) : (accumulate s f).closeSent = s.closeSent := by
+  unfold accumulate; split
+  · rfl
+  · split <;> rfl
+@[simp] theorem accumulate_buffer (s : Sess) (f : Frame) : (accumulate s f).buffer = s.buffer := by
+  unfold accumulate; split
+  · rfl
+  · split <;> rfl
+
+theorem Tr.handleDataFrame (max : Nat) (cb : Cbs) (s : Sess) (f : Frame) :
+    Tr s (handleDataFrame max cb s f).2 (handleDataFrame max cb s f).1 := by
+  unfold Iora.Ws.handleDataFrame
+  split
+  · exact Tr.refl s
+  · simp only
+    have hst : ∀ s1 : Sess, s1.closeSent = s.closeSent → s1.alive = s.alive → Tr s [] s1 := by
+      intro s1 h1 h2; apply Tr.state; unfold closedB; rw [h1, h2]; exact id
+    split
+    · have := (hst { accumulate s f with fragBuf := [], fragOp := 0 } (by simp) (by simp)).comp
+        (Tr.failSession cb _ 1009 (str "Message Too Big"))
+      simpa using this
+    · split
+      · have := (hst { accumulate s f with fragBuf := [], fragOp := 0 } (by simp) (by simp)).comp
+          (Tr.deliver cb _ (accumulate s f).fragOp (accumulate s f).fragBuf)
+        simpa using this
+      · exact hst _ (by simp) (by simp)
+
+theorem Tr.handleFrame (max : Nat) (cb : Cbs) (s : Sess) (f : Frame) :
+    Tr s (handleFrame max cb s f).2 (handleFrame max cb s f).1 := by
+  unfold Iora.Ws.handleFrame
+  split
+  · exact Tr.handleDataFrame max cb s f
+  · split
+    · exact Tr.ev s _ (by simp [isDataSend, wireOpcode_mkFrame]) (by simp [isCloseSend, wireOpcode_mkFrame])
+    · split
+      · exact Tr.refl s
+      · split
+        · -- CLOSE: echo (flag and send in one section), `_onClose`, erase, closeSession
+          simp only
+          have hecho : Tr s (if (s.alive && !s.closeSent) = true then [Ev.sent (serialize (makeClose (closePayload f.payload).1 (closePayload f.payload).2))] else [])
+              (if (s.alive && !s.closeSent) = true then { s with closeSent := true } else s) := by
+            split
+            · exact Tr.closeSend _ _ _ (wireOpcode_makeClose _ _) (by simp [closedB])
+            · exact Tr.refl s
+          have := (hecho.comp (Tr.fire _ (.onClose (closePayload f.payload).1 (closePayload f.payload).2) cb.onClose rfl rfl)).comp
+            (Tr.ev' _ ({ alive := false } : Sess) .closeSession rfl rfl (fun _ => rfl))
+          simpa [erase, List.append_assoc] using this
+        · simp only
+          exact (Tr.sendClose s 1002 _).comp (Tr.fire _ .onError cb.onError rfl rfl)
+
+theorem Tr.loop (max : Nat) (cb : Cbs) : ∀ (fuel : Nat) (s : Sess) (d : Bytes),
+    Tr s (loop max cb fuel s d).2.1 (loop max cb fuel s d).1 := by
   intro fuel
   induction fuel with
-  | zero => intro s d; simp [loop, NoData]
+  | zero => intro s d; exact Tr.refl s
   | succ fuel ih =>
     intro s d
-    unfold loop
+    unfold Iora.Ws.loop
     split
-    · simp [NoData]
+    · exact Tr.refl s
     · split
-      · simp [NoData]
-      · -- protocolError
-        refine ⟨?_, ?_, ?_⟩
-        · rw [NoData_iff]; simp [sendClose, isDataSend]
-        · intro _; simp [closedB, erase]
-        · intro _; simp [closedB, erase]
-      · refine ⟨?_, ?_, ?_⟩
-        · rw [NoData_iff]; simp [sendClose, isDataSend]
-        · intro _; simp [closedB, erase]
-        · intro _; simp [closedB, erase]
+      · exact Tr.refl s
+      · exact Tr.failSession cb s 1002 _
+      · exact Tr.failSession cb s 1009 _
       · rename_i f n hp
-        obtain ⟨i1, i2, i3⟩ := ih (handleFrame max s f).1 (d.drop n)
-        refine ⟨?_, ?_, ?_⟩
-        · exact NoData_append (handleFrame_noData max s f) i1
-        · intro h; exact i2 (handleFrame_closed max s f h)
-        · intro h
-          simp only [any_append_close, Bool.or_eq_true] at h
-          rcases h with h | h
-          · exact i2 (handleFrame_close max s f h)
-          · exact i3 h
+        exact (Tr.handleFrame max cb s f).comp (ih _ _)
 
-theorem onData_spec (max : Nat) (s : Sess) (data : Bytes) :
-    NoData (onData max s data).2 ∧
-    (closedB s = true → closedB (onData max s data).1 = true) ∧
-    ((onData max s data).2.any isCloseSend = true → closedB (onData max s data).1 = true) := by
-  unfold onData
+theorem Tr.onData (max : Nat) (cb : Cbs) (s : Sess) (data : Bytes) :
+    Tr s (onData max cb s data).2 (onData max cb s data).1 := by
+  unfold Iora.Ws.onData
   split
-  · simp [NoData]
-  · obtain ⟨i1, i2, i3⟩ := loop_spec max ((s.buffer ++ data).length + 1) { s with buffer := [] } (s.buffer ++ data)
-    have hb : closedB { s with buffer := [] } = closedB s := rfl
+  · exact Tr.refl s
+  · have h := Tr.loop max cb ((s.buffer ++ data).length + 1) { s with buffer := [] } (s.buffer ++ data)
     simp only
-    split
-    · rename_i rest hr
-      refine ⟨i1, ?_, ?_⟩
-      · intro h; have := i2 (hb ▸ h); split <;> simpa [closedB] using this
-      · intro h; have := i3 h; split <;> simpa [closedB] using this
-    · exact ⟨i1, fun h => i2 (hb ▸ h), i3⟩
+    rcases hL : Iora.Ws.loop max cb ((s.buffer ++ data).length + 1) { s with buffer := [] } (s.buffer ++ data) with ⟨s1, ev, r⟩
+    rw [hL] at h
+    have h' : Tr s ev s1 := by simpa using (Tr.state (s := s) (s' := { s with buffer := [] }) id).comp h
+    cases r with
+    | none => exact h'
+    | some rest =>
+      simp only
+      split
+      · simpa using h'.comp (Tr.state (s' := { s1 with buffer := rest }) id)
+      · exact h'
 
-theorem step_spec (max : Nat) (s : Sess) (op : AppOp) :
-    (closedB s = true → NoData (step max s op).2) ∧
-    (closedB s = true → closedB (step max s op).1 = true) ∧
-    ((step max s op).2.any isCloseSend = true → closedB (step max s op).1 = true) ∧
-    NoDataAfterClose (step max s op).2 := by
+theorem Tr.step (max : Nat) (cb : Cbs) (s : Sess) (op : AppOp) : Tr s (step max cb s op).2 (step max cb s op).1 := by
   cases op with
-  | data bs =>
-    obtain ⟨i1, i2, i3⟩ := onData_spec max s bs
-    exact ⟨fun _ => i1, i2, i3, NoDataAfterClose_of_NoData _ i1⟩
-  | sendClose c r =>
-    have := sendClose_spec s c r
-    refine ⟨fun _ => this.1, fun _ => (closed_iff _).mp this.2.1, fun _ => (closed_iff _).mp this.2.1,
-      NoDataAfterClose_of_NoData _ this.1⟩
-  | sendText bs =>
-    simp only [step, appSend]
-    refine ⟨?_, ?_, ?_, ?_⟩
-    · intro h; unfold closedB at h; split <;> simp_all [NoData]
-    · intro h; split <;> exact h
-    · intro h; split at h <;> simp_all [isCloseSend]
-    · split <;> simp [NoDataAfterClose, NoData]
-  | sendBinary bs =>
-    simp only [step, appSend]
-    refine ⟨?_, ?_, ?_, ?_⟩
-    · intro h; unfold closedB at h; split <;> simp_all [NoData]
-    · intro h; split <;> exact h
-    · intro h; split at h <;> simp_all [isCloseSend]
-    · split <;> simp [NoDataAfterClose, NoData]
-  | sendPing bs =>
-    simp only [step, appSend]
-    refine ⟨?_, ?_, ?_, ?_⟩
-    · intro h; unfold closedB at h; split <;> simp_all [NoData]
-    · intro h; split <;> exact h
-    · intro h; split at h <;> simp_all [isCloseSend]
-    · split <;> simp [NoDataAfterClose, NoData]
+  | data bs => exact Tr.onData max cb s bs
+  | sendClose c r => exact Tr.sendStep s _
+  | sendText bs => exact Tr.sendStep s _
+  | sendBinary bs => exact Tr.sendStep s _
+  | sendPing bs => exact Tr.sendStep s _
 
-/-- For every operation history: after a close frame has been handed to the transport, no data frame follows. -/
-theorem run_noDataAfterClose (max : Nat) : ∀ (ops : List AppOp) (s : Sess),
-    (closedB s = true → NoData (run max s ops).2) ∧ NoDataAfterClose (run max s ops).2 := by
+theorem Tr.run (max : Nat) (cb : Cbs) : ∀ (ops : List AppOp) (s : Sess), Tr s (run max cb s ops).2 (run max cb s ops).1 := by
   intro ops
   induction ops with
-  | nil => intro s; simp [run, NoData, NoDataAfterClose]
-  | cons op ops ih =>
-    intro s
-    obtain ⟨j1, j2, j3, j4⟩ := step_spec max s op
-    obtain ⟨k1, k2⟩ := ih (step max s op).1
-    simp only [run]
-    refine ⟨?_, ?_⟩
-    · intro h; exact NoData_append (j1 h) (k1 (j2 h))
-    · apply NoDataAfterClose_append _ _ j4 k2
-      intro ⟨e, he, hce⟩
-      apply k1
-      apply j3
-      simp only [List.any_eq_true]
-      exact ⟨e, he, hce⟩
+  | nil => intro s; exact Tr.refl s
+  | cons op ops ih => intro s; simp only [Iora.Ws.run]; exact (Tr.step max cb s op).comp (ih _)
 
-end Iora.Ws
+/-- For every operation history (application sends, reads, and whatever the application sends from inside its
+callbacks): after a close frame has been handed to the transport, no data frame follows. -/
+theorem run_noDataAfterClose (max : Nat) (cb : Cbs) (ops : List AppOp) (s : Sess) : NoDataAfterClose (run max cb s ops).2 :=
+  (Tr.run max cb ops s).ndac
 
-namespace Iora.Ws
-open Iora
+/-! ### bounded buffering: the unparsed remainder and the fragment (reassembly) buffer -/
 
 /-- an incomplete buffer is short, for ARBITRARY bytes (an RSV-flagged buffer of ≥ 2 bytes is never "incomplete") -/
 theorem parse_incomplete_short' (max : Nat) (d : Bytes) (h : parse max d = .incomplete) : d.length < 14 + max := by
@@ -295,16 +356,73 @@ theorem parse_incomplete_short' (max : Nat) (d : Bytes) (h : parse max d = .inco
     · exact parse_incomplete_short max (b0 :: b1 :: rest) hr h
     · simp [parse, hr] at h
 
-theorem handleFrame_buffer (max : Nat) (s : Sess) (f : Frame) (h : s.buffer = []) :
-    (handleFrame max s f).1.buffer = [] := by
-  unfold handleFrame handleDataFrame sendClose erase
-  simp only
-  repeat' split
-  all_goals simp_all
+/-- the four ways `handleDataFrame` can leave the session -/
+theorem handleDataFrame_cases (max : Nat) (cb : Cbs) (s : Sess) (f : Frame) :
+    (handleDataFrame max cb s f).1 = s ∨
+    (handleDataFrame max cb s f).1 = { alive := false } ∨
+    SameBut { accumulate s f with fragBuf := [], fragOp := 0 } (handleDataFrame max cb s f).1 ∨
+    ((handleDataFrame max cb s f).1 = accumulate s f ∧ (accumulate s f).fragBuf.length ≤ max) := by
+  unfold handleDataFrame
+  split
+  · exact .inl rfl
+  · simp only
+    split
+    · exact .inr (.inl rfl)
+    · split
+      · exact .inr (.inr (.inl (deliver_same ..)))
+      · exact .inr (.inr (.inr ⟨rfl, by omega⟩))
 
-theorem loop_rest (max : Nat) : ∀ (fuel : Nat) (s : Sess) (d : Bytes), d.length < fuel → s.buffer = [] →
-    (loop max fuel s d).1.buffer = [] ∧
-    ∀ r, (loop max fuel s d).2.2 = some r → r.length < 14 + max := by
+/-- what every frame handler guarantees about the two buffers -/
+def Bufs (max : Nat) (s : Sess) : Prop := s.buffer = [] ∧ s.fragBuf.length ≤ max
+
+theorem handleDataFrame_bufs (max : Nat) (cb : Cbs) (s : Sess) (f : Frame) (h : Bufs max s) :
+    Bufs max (handleDataFrame max cb s f).1 := by
+  rcases handleDataFrame_cases max cb s f with h1 | h1 | h1 | ⟨h1, h2⟩
+  · rw [h1]; exact h
+  · rw [h1]; exact ⟨rfl, by simp⟩
+  · obtain ⟨_, hb, hf, _⟩ := h1
+    exact ⟨by rw [hb]; simpa using h.1, by rw [hf]; simp⟩
+  · rw [h1]; exact ⟨by simpa using h.1, h2⟩
+
+theorem handleFrame_bufs (max : Nat) (cb : Cbs) (s : Sess) (f : Frame) (h : Bufs max s) :
+    Bufs max (handleFrame max cb s f).1 := by
+  unfold handleFrame
+  split
+  · exact handleDataFrame_bufs max cb s f h
+  · split
+    · exact h
+    · split
+      · exact h
+      · split
+        · exact ⟨rfl, by simp [erase]⟩
+        · simp only
+          have h1 := fire_same (sendClose s 1002 (str "Unsupported opcode")).1 .onError cb.onError
+          obtain ⟨_, hb, hf, _⟩ := h1
+          exact ⟨by rw [hb]; exact h.1, by rw [hf]; exact h.2⟩
+
+theorem handleFrame_buffer (max : Nat) (cb : Cbs) (s : Sess) (f : Frame) (h : s.buffer = []) :
+    (handleFrame max cb s f).1.buffer = [] := by
+  have hf : s.fragBuf.length ≤ s.fragBuf.length + max := by omega
+  -- the buffer part of `Bufs` does not depend on the bound
+  unfold handleFrame
+  split
+  · rcases handleDataFrame_cases max cb s f with h1 | h1 | h1 | ⟨h1, _⟩
+    · rw [h1]; exact h
+    · rw [h1]
+    · rw [h1.2.1]; simpa using h
+    · rw [h1]; simpa using h
+  · split
+    · exact h
+    · split
+      · exact h
+      · split
+        · rfl
+        · simp only
+          rw [(fire_same (sendClose s 1002 (str "Unsupported opcode")).1 .onError cb.onError).2.1]; exact h
+
+theorem loop_bufs (max : Nat) (cb : Cbs) : ∀ (fuel : Nat) (s : Sess) (d : Bytes), d.length < fuel → Bufs max s →
+    Bufs max (loop max cb fuel s d).1 ∧
+    ∀ r, (loop max cb fuel s d).2.2 = some r → r.length < 14 + max := by
   intro fuel
   induction fuel with
   | zero => intro s d h; omega
@@ -321,43 +439,59 @@ theorem loop_rest (max : Nat) : ∀ (fuel : Nat) (s : Sess) (d : Bytes), d.lengt
         refine ⟨hb, ?_⟩
         intro r hr; cases hr
         exact parse_incomplete_short' max d hp
-      · refine ⟨by simp [erase], ?_⟩
+      · refine ⟨⟨rfl, by simp⟩, ?_⟩
         intro r hr; cases hr
-      · refine ⟨by simp [erase], ?_⟩
+      · refine ⟨⟨rfl, by simp⟩, ?_⟩
         intro r hr; cases hr
       · rename_i f n hp
         obtain ⟨h2, hnl, _, _⟩ := parse_frame_bounds max d f n hp
         have hl : (d.drop n).length < fuel := by simp [List.length_drop]; omega
-        exact ih (handleFrame max s f).1 (d.drop n) hl (handleFrame_buffer max s f hb)
+        exact ih (handleFrame max cb s f).1 (d.drop n) hl (handleFrame_bufs max cb s f hb)
 
-theorem onData_buffer (max : Nat) (s : Sess) (data : Bytes) (h : s.buffer.length < 14 + max) :
-    (onData max s data).1.buffer.length < 14 + max := by
+/-- the session-level invariant: the unparsed remainder is shorter than `14 + max`, the fragment buffer at most `max` -/
+def Bounded (max : Nat) (s : Sess) : Prop := s.buffer.length < 14 + max ∧ s.fragBuf.length ≤ max
+
+theorem onData_bounded (max : Nat) (cb : Cbs) (s : Sess) (data : Bytes) (h : Bounded max s) :
+    Bounded max (onData max cb s data).1 := by
   unfold onData
   split
   · exact h
-  · obtain ⟨h1, h2⟩ := loop_rest max ((s.buffer ++ data).length + 1) { s with buffer := [] } (s.buffer ++ data) (by omega) rfl
+  · obtain ⟨h1, h2⟩ := loop_bufs max cb ((s.buffer ++ data).length + 1) { s with buffer := [] } (s.buffer ++ data) (by omega)
+      ⟨rfl, h.2⟩
     simp only
     split
     · rename_i rest hr
       split
-      · exact h2 rest hr
-      · rw [h1]; simp; omega
-    · rw [h1]; simp; omega
+      · exact ⟨h2 rest hr, h1.2⟩
+      · exact ⟨by rw [h1.1]; simp; omega, h1.2⟩
+    · exact ⟨by rw [h1.1]; simp; omega, h1.2⟩
 
-theorem step_buffer (max : Nat) (s : Sess) (op : AppOp) (h : s.buffer.length < 14 + max) :
-    (step max s op).1.buffer.length < 14 + max := by
+theorem sendStep_bounded (max : Nat) (s : Sess) (a : Send) (h : Bounded max s) : Bounded max (sendStep s a).1 := by
+  obtain ⟨_, hb, hf, _⟩ := sendStep_same s a
+  exact ⟨by rw [hb]; exact h.1, by rw [hf]; exact h.2⟩
+
+theorem step_bounded (max : Nat) (cb : Cbs) (s : Sess) (op : AppOp) (h : Bounded max s) :
+    Bounded max (step max cb s op).1 := by
   cases op with
-  | data bs => exact onData_buffer max s bs h
-  | sendClose c r => exact h
-  | sendText bs => simp only [step, appSend]; split <;> exact h
-  | sendBinary bs => simp only [step, appSend]; split <;> exact h
-  | sendPing bs => simp only [step, appSend]; split <;> exact h
+  | data bs => exact onData_bounded max cb s bs h
+  | sendClose c r => exact sendStep_bounded max s _ h
+  | sendText bs => exact sendStep_bounded max s _ h
+  | sendBinary bs => exact sendStep_bounded max s _ h
+  | sendPing bs => exact sendStep_bounded max s _ h
 
-theorem run_buffer (max : Nat) : ∀ (ops : List AppOp) (s : Sess), s.buffer.length < 14 + max →
-    (run max s ops).1.buffer.length < 14 + max := by
+theorem run_bounded (max : Nat) (cb : Cbs) : ∀ (ops : List AppOp) (s : Sess), Bounded max s →
+    Bounded max (run max cb s ops).1 := by
   intro ops
   induction ops with
   | nil => intro s h; exact h
-  | cons op ops ih => intro s h; simp only [run]; exact ih _ (step_buffer max s op h)
+  | cons op ops ih => intro s h; simp only [run]; exact ih _ (step_bounded max cb s op h)
+
+/-- the upgrade boundary: what was received with the upgrade request is handled exactly like a first read -/
+theorem upgrade_bounded (max : Nat) (cb : Cbs) (t : Bytes) : Bounded max (upgrade max cb t).1 := by
+  unfold upgrade
+  simp only
+  split
+  · exact ⟨by simp; omega, by simp⟩
+  · exact onData_bounded max cb {} t ⟨by simp; omega, by simp⟩
 
 end Iora.Ws
